@@ -10,7 +10,7 @@ ASSUMPTIONS = [
 
 
 def run(ctx):
-    results = orswot_merge.run_all(ctx)
+    results = orswot_merge.run_all(ctx, prop="C03")
     cov = orswot_merge.judge(ctx, results, "C03")
     return vlib.finish(ctx, "model_checking", cov, ASSUMPTIONS)
 
